@@ -180,7 +180,7 @@ Proof.
       * eapply Forall_impl; [|exact B]. intros x Hx.
         assert (Hj : j <> i) by (apply Hnot; unfold has; congruence).
         assert (Hnj : node_of j <> node_of i) by (intros E; apply node_of_inj in E; contradiction).
-        destruct x as [m|c|r|c r]; simpl in *.
+        destruct x as [m|c|r|c r|]; simpl in *; [| | | |exact Hx].
         -- destruct Hx as (He & Hm'). split.
            ++ apply RE. simpl. repeat split; [exact He| |exact Hnj].
               intros E. apply node_of_inj in E. now apply (Hnot m Hm').
@@ -215,11 +215,12 @@ Lemma cov_pending_to_rd_cached st2 st' i rest x :
   (forall r, In (List.length rest, r) (s_refstack st2) -> In (r, i) (s_redges st')) ->
   cov_pending st2 (Some i) (fst i) (List.length rest) x -> cov_rd st' i x.
 Proof.
-  intros Es HE HR HH HP. destruct x as [m|c|r|c r]; simpl.
+  intros Es HE HR HH HP. destruct x as [m|c|r|c r|]; simpl.
   - intros (A & B). split; [now apply HE|now apply HH].
   - intros A. now apply HE.
   - intros [A|A]; [now apply HR|now apply HP].
   - intros [A|A]; [now left|right; now apply HE].
+  - intros [].
 Qed.
 
 Lemma Good_pop_cached st2 i rest v f ds :
@@ -328,11 +329,12 @@ Lemma cov_pending_after_uncached st2 st' nc i rest me d x :
   cov_pending st2 nc (fst i) (List.length rest) x -> cov_pending st' nc me d x.
 Proof.
   intros Es Hd HE HR HH HP HO. unfold cov_pending. destruct nc as [jc|]; [|auto].
-  destruct x as [m|c|r|c r]; simpl.
+  destruct x as [m|c|r|c r|]; simpl.
   - intros (A & B). split; [now apply HE|now apply HH].
   - intros A. now apply HE.
   - intros [A|A]; [left; now apply HR|right; subst d; now apply (HP jc)].
   - intros [A|A]; right; [subst c; now apply HO|now apply HE].
+  - intros [].
 Qed.
 
 Lemma Good_pop_uncached st2 i rest :
